@@ -90,6 +90,31 @@ def specElems (D H : Nat) (periodic : Bool) (shape : Shape) (flags upper : Nat) 
   (if hasFlag flags flagL2P && H > upper then leaves.map fun i => Elem.l2p i (nOf i) else []) ++
   (if hasFlag flags flagP2P then specP2P D periodic L leaves ++ leaves.map Elem.p2pInner else [])
 
+/-- direct pairs in target/source mode: every source leaf (image) adjacent to or equal to the target leaf -/
+def specP2PTsm (D : Nat) (periodic : Bool) (L : Nat) (tgtLeaves srcLeaves : List Nat) : List Elem :=
+  let shifts := (imageShifts D periodic).map fun k => k.map (· * 2^L)
+  let sps := srcLeaves.map fun s => (s, toI (decode D L s))
+  tgtLeaves.flatMap fun t =>
+    let tp := toI (decode D L t)
+    sps.flatMap fun (s, sp) =>
+      shifts.filterMap fun k =>
+        let off := vsub (vadd sp k) tp
+        if off.all (fun o => o.natAbs ≤ 1) then some (Elem.p2pTsm s t (code3 off)) else none
+
+/-- elementary interactions of a target/source run -/
+def specElemsTsm (D H : Nat) (periodic : Bool) (shapeS shapeT : Shape) (flags upper : Nat) : List Elem :=
+  let L := H - 1
+  let lS := sortDedup (shapeS.map (·.1))
+  let lT := sortDedup (shapeT.map (·.1))
+  let nOf := fun (sh : Shape) i => ((sh.filter (·.1 == i)).map (·.2.length)).sum
+  (if hasFlag flags flagP2M && H > upper then lS.map fun i => Elem.p2m i (nOf shapeS i) else []) ++
+  (if hasFlag flags flagM2M then (specLinks D L lS H upper).map fun (l, p, c, k) => Elem.m2m l p c k else []) ++
+  (if hasFlag flags flagM2L then (m2lLevels H upper).flatMap fun l =>
+      specM2LLevel D periodic l (specCells D L lT l) (specCells D L lS l) else []) ++
+  (if hasFlag flags flagL2L then (specLinks D L lT H upper).map fun (l, p, c, k) => Elem.l2l l p c k else []) ++
+  (if hasFlag flags flagL2P && H > upper then lT.map fun i => Elem.l2p i (nOf shapeT i) else []) ++
+  (if hasFlag flags flagP2P then specP2PTsm D periodic L lT lS else [])
+
 /-- flatten a kernel call into elementary interactions -/
 def elemsOfCall : Call → List Elem
   | .p2m leaf parts => [Elem.p2m leaf parts.length]
